@@ -1,6 +1,7 @@
-(* Witnesses for the connection manager model: the hypotheses of the theorems are satisfiable on non-trivial runs, the
-   weakness of the sampling loop (a CONNECTING that is not read), what the proposed repair CONN-1 does with the same
-   samples, and two live connections of one target after Disconnect + Connect. *)
+(* Witnesses for the connection manager model: the hypotheses of the theorems are satisfiable on non-trivial runs; the
+   regression witness of finding F-CONN-1 (the loop before /repo ac94f55 and a CONNECTING that is not read) and what the
+   code does with the same samples now; what is still not covered (a goroutine that reads nothing between two READY
+   states); two live connections of one target after Disconnect + Connect. *)
 From Coq Require Import List NArith Bool.
 From OC Require Import Model.ConnMgr Proofs.ConnMgrProofs.
 Import ListNotations.
@@ -12,19 +13,20 @@ Definition ex_away : list event :=
    ESample 0 Idle; ESample 0 Connecting; ESample 0 Ready].
 
 Example ex_away_trace :
-  snd (run 1 ex_away) = [Added 0 7 1; CallConnect 0; Removed 0 7 1; CallConnect 0; Added 0 7 2] /\
+  snd (run 1 ex_away) = [Added 0 7 1; Removed 0 7 1; CallConnect 0; CallConnect 0; Added 0 7 2] /\
   get (fst (run 1 ex_away)) 1 = None /\ get (fst (run 1 ex_away)) 2 = Some 7 /\
   chan_ok (samples_of 0 ex_away) = true.
 Proof. vm_compute. repeat split. Qed.
 
-(** the hypotheses of [channel_loss_replaces_run] hold on it (es1 = up to the first READY, es2 = the rest but the last) *)
+(** the hypotheses of [seen_loss_replaces_run] / [channel_loss_replaces_run] hold on it
+    (es1 = up to the first READY, es2 = the rest but the last) *)
 Example ex_away_hyps :
   let es1 := firstn 3 ex_away in let es2 := firstn 5 (skipn 3 ex_away) in
-  let m := fst (run_from false (init 1) es1) in
+  let m := fst (run_from current (init 1) es1) in
   es1 ++ es2 ++ [ESample 0 Ready] = ex_away /\
   (exists go, nth_error (m_gors m) 0 = Some go /\ g_conn go = Some 1) /\
   samples_of 0 es2 <> [] /\ chan_ok (Ready :: samples_of 0 es2 ++ [Ready]) = true /\
-  existsb (loss_seen false) (samples_of 0 es2) = true /\ ~ In Shutdown (samples_of 0 es2).
+  existsb (loss_seen current) (samples_of 0 es2) = true /\ ~ In Shutdown (samples_of 0 es2).
 Proof.
   cbn zeta. split; [reflexivity|]. split; [eexists; split; vm_compute; reflexivity|].
   split; [vm_compute; discriminate|]. split; [reflexivity|]. split; [reflexivity|].
@@ -37,24 +39,50 @@ Definition ex_chan : list chan_state := [Connecting; Ready; Idle; Connecting; Re
 Definition ex_seen : list chan_state := [Connecting; Ready; Idle; Ready].
 Definition ex_skip : list event := EConnect 7 :: map (ESample 0) ex_seen.
 
-Example skipped_connecting :
+(** regression (F-CONN-1): before ac94f55 these samples left the connection of the lost transport in place *)
+Example skipped_connecting_before_repair :
   chan_ok ex_chan = true /\ sampled ex_chan ex_seen = true /\
   ex_chan = [Connecting] ++ Ready :: [Idle; Connecting] ++ Ready :: [] /\
-  snd (run 1 ex_skip) = [Added 0 7 1; CallConnect 0] /\
-  gconn (fst (run 1 ex_skip)) 0 = Some 1 /\ get (fst (run 1 ex_skip)) 1 = Some 7.
+  snd (run_before_repair 1 ex_skip) = [Added 0 7 1; CallConnect 0] /\
+  gconn (fst (run_before_repair 1 ex_skip)) 0 = Some 1 /\ get (fst (run_before_repair 1 ex_skip)) 1 = Some 7.
 Proof. vm_compute. repeat split. Qed.
 
-(** with CONN-1 the same samples remove the connection of the lost transport and make a new one *)
-Example skipped_connecting_fixed :
-  snd (run_fixed 1 ex_skip) = [Added 0 7 1; Removed 0 7 1; CallConnect 0; Added 0 7 2] /\
-  gconn (fst (run_fixed 1 ex_skip)) 0 = Some 2 /\ get (fst (run_fixed 1 ex_skip)) 1 = None.
+Theorem skipped_connecting_refuted_before_repair :
+  exists (cs ss l1 mid l2 : list chan_state),
+    chan_ok cs = true /\ sampled cs ss = true /\
+    cs = l1 ++ Ready :: mid ++ Ready :: l2 /\ mid <> [] /\ l2 = [] /\ last ss Idle = Ready /\
+    added_ids (snd (run_before_repair 1 (EConnect 7 :: map (ESample 0) ss))) = [1] /\
+    (forall g t id, ~ In (Removed g t id) (snd (run_before_repair 1 (EConnect 7 :: map (ESample 0) ss)))) /\
+    get (fst (run_before_repair 1 (EConnect 7 :: map (ESample 0) ss))) 1 = Some 7.
+Proof.
+  exists ex_chan, ex_seen, [Connecting], [Idle; Connecting], [].
+  repeat split; try reflexivity; try discriminate.
+  intros g t id H. vm_compute in H. repeat (destruct H as [H|H]; [discriminate|]). exact H.
+Qed.
+
+(** the code as it is removes the connection of the lost transport on the same samples and makes a new one *)
+Example skipped_connecting_now :
+  snd (run 1 ex_skip) = [Added 0 7 1; Removed 0 7 1; CallConnect 0; Added 0 7 2] /\
+  gconn (fst (run 1 ex_skip)) 0 = Some 2 /\ get (fst (run 1 ex_skip)) 1 = None.
 Proof. vm_compute. repeat split. Qed.
 
-(** what CONN-1 cannot repair: a goroutine that reads nothing at all between the two READY states *)
-Example nothing_seen_fixed :
-  sampled ex_chan [Connecting; Ready; Ready] = true /\
-  snd (run_fixed 1 (EConnect 7 :: map (ESample 0) [Connecting; Ready; Ready])) = [Added 0 7 1].
-Proof. vm_compute. repeat split. Qed.
+(** what is still not covered: a goroutine that reads NOTHING between the two READY states (it was not scheduled
+    between the loss and the completed re-dial, and something else - an RPC on the idle channel - started the re-dial):
+    the contract "lost and re-established => new connection" does not hold without an assumption on the samples *)
+Definition ex_unread : list chan_state := [Connecting; Ready; Ready].
+
+Theorem unread_loss_refuted :
+  exists (cs ss l1 mid l2 : list chan_state),
+    chan_ok cs = true /\ sampled cs ss = true /\
+    cs = l1 ++ Ready :: mid ++ Ready :: l2 /\ mid <> [] /\ l2 = [] /\ last ss Idle = Ready /\
+    added_ids (snd (run 1 (EConnect 7 :: map (ESample 0) ss))) = [1] /\
+    (forall g t id, ~ In (Removed g t id) (snd (run 1 (EConnect 7 :: map (ESample 0) ss)))) /\
+    get (fst (run 1 (EConnect 7 :: map (ESample 0) ss))) 1 = Some 7.
+Proof.
+  exists ex_chan, ex_unread, [Connecting], [Idle; Connecting], [].
+  repeat split; try reflexivity; try discriminate.
+  intros g t id H. vm_compute in H. repeat (destruct H as [H|H]; [discriminate|]). exact H.
+Qed.
 
 (** Disconnect + Connect of the same target before the first goroutine has read SHUTDOWN: two live connections of the
     target, one per Connect, until the SHUTDOWN is read *)
@@ -66,18 +94,3 @@ Example two_live_of_one_target :
   get (fst (run 1 ex_reconnect)) 1 = Some 7 /\ get (fst (run 1 ex_reconnect)) 2 = Some 7 /\
   snd (run 1 (ex_reconnect ++ [ESample 0 Shutdown])) = [Added 0 7 1; Added 1 7 2; Removed 0 7 1].
 Proof. vm_compute. repeat split. Qed.
-
-(** the contract "a channel that was lost and re-established gets a new connection" does not hold for conn_manager.go
-    as it is without an assumption on what the goroutine reads *)
-Theorem skipped_connecting_refuted :
-  exists (cs ss l1 mid l2 : list chan_state),
-    chan_ok cs = true /\ sampled cs ss = true /\
-    cs = l1 ++ Ready :: mid ++ Ready :: l2 /\ mid <> [] /\ l2 = [] /\ last ss Idle = Ready /\
-    added_ids (snd (run 1 (EConnect 7 :: map (ESample 0) ss))) = [1] /\
-    (forall g t id, ~ In (Removed g t id) (snd (run 1 (EConnect 7 :: map (ESample 0) ss)))) /\
-    get (fst (run 1 (EConnect 7 :: map (ESample 0) ss))) 1 = Some 7.
-Proof.
-  exists ex_chan, ex_seen, [Connecting], [Idle; Connecting], [].
-  repeat split; try reflexivity; try discriminate.
-  intros g t id H. vm_compute in H. repeat (destruct H as [H|H]; [discriminate|]). exact H.
-Qed.
